@@ -74,6 +74,7 @@ package server
 
 //@ func computeSemanticTokensEdits
 //@   props C17
+//@   requires len(oldData) < 4294967296
 //@   ensures [same] len(oldData) == len(newData) && (forall k int :: 0 <= k && k < len(oldData) ==> oldData[k] == newData[k]) ==> len(result) == 0
 //@   ensures [replace] len(oldData) < 4294967296 && len(result) != 0 ==> len(result) == 1 && result[0].Start == 0 && result[0].DeleteCount == len(oldData) && result[0].Data == newData
 //@   ensures [difflen] len(oldData) != len(newData) ==> len(result) == 1
@@ -113,14 +114,24 @@ package server
 //@   requires tx != nil
 //@   ensures [shape] result.Start.Line == result.End.Line && result.Start.Column <= result.End.Column
 
-//@ trusted extractTagTokensFromComment
-//@   ensures forall i int :: 0 <= i && i < len(result) ==> result[i].tokenType <= 12
-//@   ensures fresh(result) || len(result) == 0
+//@ func isValidTagName
+//@   props C06 C17
+//@   effects none
+//@   loop 1 invariant 0 <= iterpos && iterpos <= len(name)
+
+//@ func extractTagTokensFromComment
+//@   props C06 C17
+//@   requires tok.Pos.Line >= 1 && tok.Pos.Column >= 1 && tok.Pos.Line <= 4294967295 && tok.Pos.Column <= 4294967295 && len(tok.Value) < 4294967295
+//@   ensures [legend] forall i int :: 0 <= i && i < len(result) ==> result[i].tokenType <= 12
+//@   ensures [fresh] fresh(result) || len(result) == 0
+//@   loop 1 invariant 0 - 1 <= rangeindex && 0 <= searchStart && searchStart <= len(commentText) && commentText == tok.Value && (fresh(tokens) || len(tokens) == 0)
+//@   loop 1 invariant forall i int :: 0 <= i && i < len(tokens) ==> tokens[i].tokenType <= 12
+//@   loop 1 decreases len(parts) - rangeindex
 
 //@ func tokenizeForSemantics
 //@   props C17 C06
-//@   requires len(content) < 4294967295
+//@   requires len(content) < 4294967294
 //@   ensures [legend] forall i int :: 0 <= i && i < len(result) ==> result[i].tokenType <= 12
-//@   loop 1 invariant lexer != nil && fresh(lexer) && LexInv(lexer) && lexer.input == content
+//@   loop 1 invariant lexer != nil && fresh(lexer) && LexInv(lexer) && Pos16(lexer) && lexer.input == content
 //@   loop 1 invariant forall i int :: 0 <= i && i < len(tokens) ==> tokens[i].tokenType <= 12
 //@   loop 1 decreases len(content) - lexer.pos
